@@ -66,3 +66,38 @@ Theorem C17_fresh_engine_refuted :
     render_partials alone_render (B "cart") ps <> None.
 Proof. exact fresh_engine_refuted. Qed.
 Print Assumptions C17_fresh_engine_refuted.
+
+(* WHICH partials exist.  Engine.Render = exact lookup of the name among the compiled
+   templates (one per file <name>.ast.json of the tree), then execution.  Then the whole
+   statement of C17 holds with existence = plain membership of the literal name
+   T.partial/p in the file tree: success gives exactly the requested keys, every one an
+   existing partial with the content of its execution; failure names a requested partial
+   that is no file of the tree (or whose execution fails). *)
+Theorem C17_spec_tree : forall (tree : list bytes) (exec : bytes -> option bytes) t ps,
+  spec17 tree exec t ps (render_partials (render_lookup tree exec) t ps).
+Proof. exact spec_tree. Qed.
+Print Assumptions C17_spec_tree.
+
+(* a requested name that is no file of the tree - whatever it would resolve to as a
+   path - makes the whole call an error *)
+Theorem C17_unknown_name_errors : forall (tree : list bytes) (exec : bytes -> option bytes) t ps,
+  (exists p, In p ps /\ ~ In (partial_name t p) tree) ->
+  render_partials (render_lookup tree exec) t ps = None.
+Proof. exact unknown_name_errors. Qed.
+Print Assumptions C17_unknown_name_errors.
+
+Theorem C17_success_iff_all_exist : forall (tree : list bytes) (exec : bytes -> option bytes) t ps,
+  (exists m, render_partials (render_lookup tree exec) t ps = Some m) <->
+  forall p, In p ps -> In (partial_name t p) tree /\ exec (partial_name t p) <> None.
+Proof. exact success_iff_all_exist. Qed.
+Print Assumptions C17_success_iff_all_exist.
+
+(* the exact lookup is needed: a Render that resolves names like file paths returns
+   content for requests none of whose names exists *)
+Theorem C17_resolving_lookup_refuted :
+  exists ps m,
+    (forall p, In p ps -> partial_exists nv_tree (B "cart") p = false) /\
+    render_partials (resolving_lookup nv_tree nv_exec) (B "cart") ps = Some m /\
+    render_partials (render_lookup nv_tree nv_exec) (B "cart") ps = None.
+Proof. exact resolving_lookup_refuted. Qed.
+Print Assumptions C17_resolving_lookup_refuted.
